@@ -138,11 +138,13 @@ class Scanner:
         if self.peek() in (" ", "\t"):
             self.next()
 
-        if value := self.scan_until(RE_NEWLINE):
-            self.emit(TokenKind.COMMENT_TEXT, value)
-        else:
-            # Empty comment text
-            self.emit(TokenKind.COMMENT_TEXT, "")
+        if (value := self.scan_until(RE_NEWLINE)) is None:
+            # The comment is the last line of the grammar.
+            self.pos = len(self.grammar)
+            value = self.grammar[self.start : self.pos]
+
+        # `value` is the empty string for an empty comment.
+        self.emit(TokenKind.COMMENT_TEXT, value)
 
         return self.scan_grammar
 
@@ -194,11 +196,13 @@ class Scanner:
         if self.peek() in (" ", "\t"):
             self.next()
 
-        if value := self.scan_until(RE_NEWLINE):
-            self.emit(TokenKind.COMMENT_TEXT, value)
-        else:
-            # Empty comment text
-            self.emit(TokenKind.COMMENT_TEXT, "")
+        if (value := self.scan_until(RE_NEWLINE)) is None:
+            # The comment is the last line of the grammar.
+            self.pos = len(self.grammar)
+            value = self.grammar[self.start : self.pos]
+
+        # `value` is the empty string for an empty comment.
+        self.emit(TokenKind.COMMENT_TEXT, value)
 
         return self.scan_grammar_rule
 
